@@ -251,6 +251,7 @@ func editResync(r *Run) {
 
 	// geometry
 	touched := 0
+	bLost := false
 	var edited []byte
 	desc := ""
 	switch {
@@ -309,8 +310,39 @@ func editResync(r *Run) {
 					r.Probe("crc-lookalike-window-before-surviving-slice")
 				}
 			}
+			insKind := ""
+			if r.SweepCase < 0 && !c.Zeros && len(a) >= 2*c.S {
+				switch t.Pick([]int{12, 1, 1}, "inserted-content") {
+				case 1:
+					// the inserted bytes contain an intact copy of the slice the
+					// insertion cuts in two (or of the slice before it)
+					k := c.P / c.S
+					if (k+1)*c.S > len(a) {
+						k = len(a)/c.S - 1
+					}
+					pre := make([]byte, t.Draw(c.S, "junk-before-copy"))
+					for i := range pre {
+						pre[i] = byte(g.next())
+					}
+					ins = append(pre, a[k*c.S:(k+1)*c.S]...)
+					c.L = len(ins)
+					insKind = "junk+copy-of-slice"
+					r.Probe("insertion-contains-copy-of-cut-slice")
+				case 2:
+					// the whole content of the other protected file, which is
+					// then lost itself (split files joined by mistake)
+					ins = append([]byte(nil), b...)
+					c.L = len(ins)
+					insKind = "content-of-b.dat"
+					bLost = true
+					r.Probe("other-file-inserted-mid-file")
+				}
+			}
 			edited = append(append(append([]byte(nil), a[:c.P]...), ins...), a[c.P:]...)
 			desc = fmt.Sprintf("insert %d bytes at %d", c.L, c.P)
+			if insKind != "" {
+				desc += " (" + insKind + ")"
+			}
 			if c.Zeros && c.P == len(a) {
 				desc = fmt.Sprintf("append %d zero bytes", c.L)
 			} else if c.Zeros {
@@ -334,6 +366,11 @@ func editResync(r *Run) {
 		r.Probe("len-multiple-of-S")
 	} else {
 		r.Probe("len-not-multiple-of-S")
+	}
+	if bLost && len(b)%c.S != 0 {
+		// b.dat's short final slice is followed by more data where it now
+		// sits (zero padding counts only at end of file): one block for it
+		touched++
 	}
 	w.R = touched
 	if w.R == 0 {
@@ -363,6 +400,9 @@ func editResync(r *Run) {
 		d.Remove(w.Path(0))
 	default:
 		d.Put(w.Path(0), edited)
+		if bLost {
+			d.Remove(w.Path(1))
+		}
 	}
 	r.Count("damage:" + map[bool]string{false: "insert", true: "remove-bytes"}[c.Del])
 	tr := w.TruthPar2()
@@ -378,6 +418,12 @@ func editResync(r *Run) {
 	}
 	if v.Counts.UsableDataShardCount < bound {
 		r.Violate("usable-below-geometry", "S=%d len=%d %s: Verify counts %d usable slices, but the edit touches only %d of %d slices (at least %d survive contiguously)", c.S, len(a), desc, v.Counts.UsableDataShardCount, touched, w.N, bound)
+	}
+	// the statement itself: every slice that still exists contiguously,
+	// not overlapping another surviving slice, counts as usable - which can
+	// be more than geometry promises when the edit brought copies along
+	if v.Counts.UsableDataShardCount < tr.Scan.Lower {
+		r.Violate("usable-below-lower", "S=%d len=%d %s: Verify counts %d usable slices but %d of %d slices are cleanly present somewhere in the surviving files", c.S, len(a), desc, v.Counts.UsableDataShardCount, tr.Scan.Lower, w.N)
 	}
 	if v.Counts.UsableDataShardCount > tr.Scan.Upper {
 		r.Violate("usable-above-upper", "S=%d len=%d %s: Verify counts %d usable slices, only %d have their content anywhere", c.S, len(a), desc, v.Counts.UsableDataShardCount, tr.Scan.Upper)
